@@ -906,3 +906,25 @@ package exec
 //@   panics_if taskIndex < 0 || taskIndex >= len(r.Locations) || r.Locations[taskIndex] < 0 || r.Locations[taskIndex] >= len(r.Machines)
 //@   ensures  addr == r.Machines[r.Locations[taskIndex]]
 //@   modifies nothing
+
+// ---- C12: discarding on the cluster executor. Only a task that is OK (its output is stored) is touched; a task with a
+// ---- shared (machine) combiner never is; on the worker every partition of the task is dropped from the store and the
+// ---- task ends LOST, so that a later use recomputes it instead of reading missing output.
+
+//@ func exec.(*bigmachineExecutor).Discard (ctx, task)
+//@   requires b != nil && task != nil
+//@   flag trust_nil_safety
+//@   ensures  shared-combiner-untouched: implies(!funcIsNil(task.Combiner) && task.CombineKey != "", task.state == old(task.state) && machineDiscards == old(machineDiscards))
+//@   ensures  only-ok-tasks: implies(old(task.state) != TaskOk, task.state == old(task.state) && machineDiscards == old(machineDiscards))
+//@   ensures  ok-task-leaves-ok-before-its-output-goes: implies(old(task.state) == TaskOk && (funcIsNil(task.Combiner) || task.CombineKey == ""), task.state == TaskRunning && machineDiscards <= old(machineDiscards) + 1)
+//@   modifies task.state, machineDiscards
+
+//@ func exec.(*worker).Discard (ctx, taskName, _) (err)
+//@   requires w != nil && w.store != nil && w.combinerStates != nil
+//@   flag trust_nil_safety
+//@   ensures  never-fails: err == nil
+//@   ensures  unknown-task-ignored: implies(w.tasks[taskName.InvIndex] == nil || w.tasks[taskName.InvIndex][taskName] == nil, storeDiscards == old(storeDiscards))
+//@   ensures  only-ok-tasks: implies(w.tasks[taskName.InvIndex] != nil && w.tasks[taskName.InvIndex][taskName] != nil && old(w.tasks[taskName.InvIndex][taskName].state) != TaskOk, storeDiscards == old(storeDiscards) && w.tasks[taskName.InvIndex][taskName].state == old(w.tasks[taskName.InvIndex][taskName].state))
+//@   ensures  every-partition-dropped-then-lost: implies(w.tasks[taskName.InvIndex] != nil && w.tasks[taskName.InvIndex][taskName] != nil && old(w.tasks[taskName.InvIndex][taskName].state) == TaskOk && w.tasks[taskName.InvIndex][taskName].NumPartition >= 0, w.tasks[taskName.InvIndex][taskName].state == TaskLost && storeDiscards == old(storeDiscards) + w.tasks[taskName.InvIndex][taskName].NumPartition)
+//@   modifies Task.state, Task.waitc, storeDiscards, w.combinerStates[:]
+//@   loop 1 invariant 0 <= partition && storeDiscards == old(storeDiscards) + partition && task.state == TaskRunning && task == w.tasks[taskName.InvIndex][taskName] && implies(task.NumPartition >= 0, partition <= task.NumPartition)
